@@ -38,6 +38,12 @@ func (c *capture) Scan(_ *engine.VM, term engine.Term, env *engine.Env) error {
 func engineProgram(db []J) (string, map[string]bool) {
 	user := map[string]bool{}
 	var sb strings.Builder
+	// option strings=1: lists of one-letter atoms in the PROGRAM are written as double-quoted strings (double_quotes = chars is the
+	// default); queries keep the list notation, so a string in a clause meets the same list written another way
+	if opt("strings") == "1" { // (written only then: family isoconc renders programs from several goroutines)
+		jt.StringLists = true
+		defer func() { jt.StringLists = false }()
+	}
 	for _, p := range db {
 		pr := p.(map[string]J)
 		key := pr["key"].([]J)
